@@ -219,6 +219,18 @@ def replay_derive(ctx, sc, k):
             ctx.mismatch('C08:derive:%s:public-key-differs' % cname, 'derived key: public point %s, reference %s\n%s' % (
                 bytes(kk.public_point).hex(), cr.public_key(curve, sec).hex(), desc), case)
             return False, True
+    # the seed is BIP-39: PBKDF2-HMAC-SHA512(mnemonic, "mnemonic" + email + passphrase, 2048), its first 32 bytes are the secret
+    # (e-mail first: a fundraiser wallet is (mnemonic, e-mail, password)); computed with hashlib for an e-mail and a passphrase that differ
+    if curve != 'bl':
+        import hashlib, unicodedata
+        em, pw = tok + '@x.org', 'pw-' + tok[::-1]
+        o3 = kf.outcome(Key.from_mnemonic, arg, passphrase=pw, email=em, curve=cr.PY_CURVE[curve])
+        seed = hashlib.pbkdf2_hmac('sha512', unicodedata.normalize('NFKD', ' '.join(words)).encode(), ('mnemonic' + em + pw).encode(), 2048)
+        ctx.count(('derive-bip39', curve, n, k), nontrivial=True)
+        if o3[0] == 'raise' or bytes(o3[1].secret_exponent)[:32] != seed[:32]:
+            ctx.mismatch('C08:derive:%s:not-the-bip39-seed' % cname, 'Key.from_mnemonic(.., passphrase=%r, email=%r): secret %s, BIP-39 (e-mail before passphrase) gives %s\n%s' % (
+                pw, em, o3[1:] if o3[0] == 'raise' else bytes(o3[1].secret_exponent)[:32].hex(), seed[:32].hex(), desc), case)
+            return False, True
     eq = kf.key_state(k1) == kf.key_state(k2)
     if equal_inputs:
         if not eq:
